@@ -1257,16 +1257,31 @@ func (sed *shardEventDelegate) NotifyLeave(node *memberlist.Node) {
 		sed.manager.remoteNodeStatesMu.Unlock()
 	}
 
-	// If we're now isolated and have join addresses configured, restart join loop
-	if sed.manager != nil && sed.manager.ml != nil && sed.manager.memberlistConfig != nil {
-		sed.manager.mlMutex.RLock()
-		numMembers := sed.manager.ml.NumMembers()
-		sed.manager.mlMutex.RUnlock()
-		if numMembers == 1 && len(sed.manager.memberlistConfig.JoinAddrs) > 0 {
-			sed.logger.Info("Node is now isolated, restarting join loop",
-				tag.NewStringTag("numMembers", strconv.Itoa(numMembers)))
-			sed.manager.startJoinLoop()
-		}
+	// If we're now isolated and have join addresses configured, restart join loop.
+	// memberlist invokes this callback with its node lock held - also for our own departure inside Leave, which
+	// shutdownMemberlist runs while holding mlMutex - so nothing here may take mlMutex or call back into memberlist
+	// (NumMembers takes the node lock): do the check from a separate goroutine.
+	if sed.manager != nil && sed.manager.memberlistConfig != nil &&
+		len(sed.manager.memberlistConfig.JoinAddrs) > 0 && node.Name != sed.manager.GetNodeName() {
+		go sed.manager.rejoinIfIsolated()
+	}
+}
+
+// rejoinIfIsolated restarts the join loop when this node is the only member left.
+func (sm *shardManagerImpl) rejoinIfIsolated() {
+	sm.mutex.RLock()
+	ml, started := sm.ml, sm.started
+	sm.mutex.RUnlock()
+	if ml == nil || !started {
+		return
+	}
+	sm.mlMutex.RLock()
+	numMembers := ml.NumMembers()
+	sm.mlMutex.RUnlock()
+	if numMembers == 1 {
+		sm.logger.Info("Node is now isolated, restarting join loop",
+			tag.NewStringTag("numMembers", strconv.Itoa(numMembers)))
+		sm.startJoinLoop()
 	}
 }
 
